@@ -61,12 +61,12 @@ func genC11(rt *rapid.T) c11Req {
 	// benign variation that keeps the request valid
 	switch rapid.IntRange(0, 5).Draw(rt, "benign") {
 	case 1:
-		q.Conn = []string{rapid.SampledFrom([]string{"upgrade", "UPGRADE", "keep-alive, Upgrade", "Upgrade, keep-alive", "keep-alive,upgrade", "Upgrade ,  keep-alive"}).Draw(rt, "connOK")}
+		q.Conn = []string{rapid.SampledFrom([]string{"upgrade", "UPGRADE", "keep-alive, Upgrade", "Upgrade, keep-alive", "keep-alive,upgrade", "Upgrade ,  keep-alive", "keep-alive,\tUpgrade", "Upgrade\t, keep-alive", "keep-alive, \t Upgrade \t"}).Draw(rt, "connOK")}
 	case 2:
 		q.Conn = []string{"keep-alive", "Upgrade"}
 		q.Upgr = []string{"h2c", "WebSocket"}
 	case 3:
-		q.Upgr = []string{rapid.SampledFrom([]string{"WebSocket", "WEBSOCKET", "h2c, websocket", "websocket, h2c"}).Draw(rt, "upgrOK")}
+		q.Upgr = []string{rapid.SampledFrom([]string{"WebSocket", "WEBSOCKET", "h2c, websocket", "websocket, h2c", "h2c,\twebsocket", "websocket\t,h2c"}).Draw(rt, "upgrOK")}
 	case 4:
 		q.Key = []string{"  " + q.Key[0] + " "}
 	}
@@ -83,10 +83,17 @@ func genC11(rt *rapid.T) c11Req {
 			offered = append(offered, rapid.SampledFrom(protos).Draw(rt, "offered"))
 		}
 		if len(offered) > 0 {
-			if rapid.Bool().Draw(rt, "protoLines") && len(offered) > 1 {
-				q.Proto = []string{strings.Join(offered[:1], ", "), strings.Join(offered[1:], ",")}
-			} else {
+			switch rapid.IntRange(0, 2).Draw(rt, "protoLines") {
+			case 0:
+				if len(offered) > 1 {
+					q.Proto = []string{strings.Join(offered[:1], ", "), strings.Join(offered[1:], ",")}
+					break
+				}
+				fallthrough
+			case 1:
 				q.Proto = []string{strings.Join(offered, ", ")}
+			default:
+				q.Proto = []string{strings.Join(offered, ",\t")} // optional white space includes the tab
 			}
 		}
 	}
@@ -316,7 +323,20 @@ func TestC11(t *testing.T) {
 			}
 			return
 		}
-		sv, aerr := wsx.AcceptReq(r, &websocket.AcceptOptions{Subprotocols: q.Supported}, nil)
+		var sv *wsx.Server
+		var aerr error
+		if rapid.IntRange(0, 5).Draw(rt, "frameworkWriter") == 0 {
+			// a framework's ResponseWriter (gin): the status only goes out when WriteHeaderNow is called
+			lib, peer := memconn.Pipe()
+			w := wsx.NewRespWriter(lib)
+			w.Deferred = true
+			sv, aerr = wsx.AcceptWith(w, r, &websocket.AcceptOptions{Subprotocols: q.Supported})
+			sv.Peer = peer
+			defer peer.Close()
+			defer lib.Close()
+		} else {
+			sv, aerr = wsx.AcceptReq(r, &websocket.AcceptOptions{Subprotocols: q.Supported}, nil)
+		}
 		out := c11Outcome{Code: sv.W.Code, Hijacked: sv.W.Hijacked, Conn: sv.Conn, Err: aerr, H: sv.W.H}
 		msg := checkC11(q, text, verdict, key, out)
 		if sv.Conn != nil {
